@@ -453,9 +453,14 @@ class PolicyAudit:
         self.saw_order_choice = False  # a pop that had >= 2 held items to choose from
         self._model_ok = True  # stop comparing after the first divergence (one root cause, one report)
         self._reported: set = set()
+        self.order_comp = None  # set when an order/peek violation belongs to the inner policy of a BalkingQueue
 
     # ---- helpers
     def _v(self, oracle, shape, detail):
+        if self.kind == "balking" and oracle in ("order", "peek"):
+            # BalkingQueue.pop / .peek only delegate: the order is the inner policy's
+            detail = f"(through BalkingQueue) {detail}"
+            self.order_comp = class_name(self.spec["inner"])
         key = (oracle, shape)
         if key in self._reported:
             return
@@ -477,8 +482,9 @@ class PolicyAudit:
 
     def _ctx(self, now_ns) -> str:
         """Structural context for shapes (never ids / values)."""
-        if self.kind == "deadline" and isinstance(self.model, DeadlineModel):
-            return "with-expired-items" if self.model.n_expired_held(now_ns) else "no-expired-items"
+        m = self.model.inner if isinstance(self.model, BalkModel) else self.model
+        if isinstance(m, DeadlineModel):
+            return "with-expired-items" if m.n_expired_held(now_ns) else "no-expired-items"
         if self.kind in ("fair", "wfq"):
             return "multi-flow" if self.model is not None and len(self.model.order) > 1 else "single-flow"
         return "plain"
